@@ -7,7 +7,6 @@ import (
 	"context"
 	"errors"
 	"fmt"
-	"path"
 	"slices"
 	"strings"
 	"time"
@@ -694,7 +693,10 @@ func (ps *Store) sanitizeName(name string) string {
 }
 
 func (ps *Store) cacheKey(ns *namespace.Namespace, name string) string {
-	return path.Join(ns.UUID, name)
+	// The name is joined verbatim: path.Join would clean it, and a name such
+	// as "../<uuid of another namespace>/admin" would then address the cache
+	// entry of that other namespace's policy.
+	return ns.UUID + "/" + name
 }
 
 // LoadDefaultPolicies loads default policies for the namespace in the provided context
